@@ -46,6 +46,9 @@ use flume::{bounded, Sender, TrySendError};
 use if_addrs::{IfAddr, Interface};
 use mio::{event::Source, net::UdpSocket as MioUdpSocket, Interest, Poll, Registry, Token};
 use socket2::Domain;
+#[cfg(feature = "verif-hooks")]
+use crate::verif::PktInfoUdpSocket;
+#[cfg(not(feature = "verif-hooks"))]
 use socket_pktinfo::PktInfoUdpSocket;
 use std::{
     cmp::{self, Reverse},
@@ -312,6 +315,8 @@ impl ServiceDaemon {
             .map_err(|e| e_fmt!("failed to set nonblocking for signal socket: {}", e))?;
 
         let poller = Poll::new().map_err(|e| e_fmt!("failed to create mio Poll: {e}"))?;
+        #[cfg(feature = "verif-hooks")]
+        crate::verif::handoff(signal_addr);
 
         let (sender, receiver) = bounded(100);
 
@@ -747,6 +752,8 @@ impl ServiceDaemon {
         cmd_sender: Sender<Command>,
         signal_addr: SocketAddr,
     ) {
+        #[cfg(feature = "verif-hooks")]
+        let _verif_guard = crate::verif::adopt(signal_addr);
         let mut zc = Zeroconf::new(signal_sock, poller, port, cmd_sender, signal_addr);
 
         if let Some(cmd) = zc.run(receiver) {
@@ -1435,12 +1442,20 @@ impl Zeroconf {
                 let millis = if timer > now { timer - now } else { 1 };
                 Duration::from_millis(millis)
             });
+            #[cfg(feature = "verif-hooks")]
+            let timeout =
+                crate::verif::gate(now, earliest_timer, timeout, |l| self.verif_snapshot(l));
 
             // Process incoming packets, command events and optional timeout.
             events.clear();
             match self.poller.poll(&mut events, timeout) {
                 Ok(_) => self.handle_poller_events(&events),
                 Err(e) => debug!("failed to select from sockets: {}", e),
+            }
+            #[cfg(feature = "verif-hooks")]
+            if crate::verif::active() {
+                while self.handle_read(IPV4_SOCK_EVENT_KEY) {}
+                while self.handle_read(IPV6_SOCK_EVENT_KEY) {}
             }
 
             let now = current_time_millis();
@@ -2955,6 +2970,8 @@ impl Zeroconf {
     }
 
     fn conflict_handler(&mut self, msg: &DnsIncoming, if_index: u32) {
+        #[cfg(feature = "verif-hooks")]
+        use crate::verif::fastrand_shim as fastrand;
         let Some(my_intf) = self.my_intfs.get(&if_index) else {
             debug!("handle_response: no intf found for index {if_index}");
             return;
@@ -4286,6 +4303,8 @@ fn my_ip_interfaces(with_loopback: bool) -> Vec<Interface> {
 }
 
 fn my_ip_interfaces_inner(with_loopback: bool, with_apple_p2p: bool) -> Vec<Interface> {
+    #[cfg(feature = "verif-hooks")]
+    use crate::verif::if_addrs_shim as if_addrs;
     if_addrs::get_if_addrs()
         .unwrap_or_default()
         .into_iter()
@@ -4518,6 +4537,8 @@ fn prepare_announce(
     dns_registry: &mut DnsRegistry,
     is_ipv4: bool,
 ) -> Option<DnsOutgoing> {
+    #[cfg(feature = "verif-hooks")]
+    use crate::verif::fastrand_shim as fastrand;
     let intf_addrs = if is_ipv4 {
         info.get_addrs_on_my_intf_v4(intf)
     } else {
@@ -5815,5 +5836,120 @@ mod tests {
         client_custom.shutdown().unwrap();
         server_default.shutdown().unwrap();
         client_default.shutdown().unwrap();
+    }
+}
+
+#[cfg(feature = "verif-hooks")]
+impl Zeroconf {
+    /// Plain-data, read-only copy of the daemon state for the verification harness.
+    fn verif_snapshot(&self, level: u8) -> crate::verif::Snapshot {
+        use crate::verif::{ProbeSnap, Snapshot};
+
+        let mut timers: Vec<u64> = self.timers.iter().map(|Reverse(t)| *t).collect();
+        timers.sort_unstable();
+        timers.truncate(32);
+
+        let retransmissions = self
+            .retransmissions
+            .iter()
+            .map(|r| {
+                let key = match &r.command {
+                    Command::Browse(ty, delay, _, _) => format!("{ty}|{delay}"),
+                    Command::ResolveHostname(host, delay, _, _) => format!("{host}|{delay}"),
+                    Command::RegisterResend(name, if_index) => format!("{name}|{if_index}"),
+                    Command::UnregisterResend(_, if_index, v4) => format!("{if_index}|{v4}"),
+                    Command::Resolve(instance, tries) => format!("{instance}|{tries}"),
+                    Command::Verify(instance, _) => instance.clone(),
+                    _ => String::new(),
+                };
+                (r.next_time, r.command.to_string(), key)
+            })
+            .collect();
+
+        let status_name = |s: ServiceStatus| match s {
+            ServiceStatus::Probing => "probing",
+            ServiceStatus::Announced => "announced",
+            ServiceStatus::Unknown => "unknown",
+        };
+        let mut if_indexes: Vec<u32> = self.my_intfs.keys().copied().collect();
+        if_indexes.extend(self.dns_registry_map.keys().copied());
+        if_indexes.sort_unstable();
+        if_indexes.dedup();
+
+        let services = self
+            .my_services
+            .iter()
+            .map(|(key, info)| {
+                (
+                    key.clone(),
+                    info.get_fullname().to_string(),
+                    info.get_hostname().to_string(),
+                    if_indexes
+                        .iter()
+                        .map(|i| (*i, status_name(info.get_status(*i))))
+                        .collect(),
+                )
+            })
+            .collect();
+
+        let mut probes = Vec::new();
+        let mut active = Vec::new();
+        let mut name_changes = Vec::new();
+        for (if_index, registry) in self.dns_registry_map.iter() {
+            for (name, probe) in registry.probing.iter() {
+                probes.push(ProbeSnap {
+                    if_index: *if_index,
+                    name: name.clone(),
+                    start_time: probe.start_time,
+                    next_send: probe.next_send,
+                    records: probe.records.len(),
+                    waiting: probe.waiting_services.iter().cloned().collect(),
+                });
+            }
+            for (name, records) in registry.active.iter() {
+                active.push((*if_index, name.clone(), records.len()));
+            }
+            for (original, new_name) in registry.name_changes.iter() {
+                name_changes.push((*if_index, original.clone(), new_name.clone()));
+            }
+        }
+
+        let (cache, cache_subtypes, cache_records) = self.cache.verif_snapshot(level >= 2);
+
+        Snapshot {
+            timers_len: self.timers.len(),
+            timers_min: timers,
+            retransmissions,
+            queriers: self.service_queriers.keys().cloned().collect(),
+            resolvers: self
+                .hostname_resolvers
+                .iter()
+                .map(|(host, (_, timeout))| (host.clone(), *timeout))
+                .collect(),
+            pending_resolves: self.pending_resolves.iter().cloned().collect(),
+            resolved: self.resolved.iter().cloned().collect(),
+            services,
+            probes,
+            active,
+            name_changes,
+            intfs: self
+                .my_intfs
+                .values()
+                .map(|i| {
+                    (
+                        i.index,
+                        i.name.clone(),
+                        i.addrs.iter().map(|a| a.ip()).collect(),
+                    )
+                })
+                .collect(),
+            cache,
+            cache_subtypes,
+            cache_records,
+            monitors: self.monitors.len(),
+            ip_check_interval: self.ip_check_interval,
+            if_selections: self.if_selections.len(),
+            counters: self.counters.iter().map(|(k, v)| (k.clone(), *v)).collect(),
+        }
     }
 }
